@@ -167,6 +167,9 @@ def run(tier, argv):
     tests += sp2["located_violations"]
     rep.cov["evaluations"] = n + tests
     rep.cov["distinct_nontrivial"] = n + tests
+    # positions far into long documents: arrays of up to 70 000 items with one odd item, the error must be at its offset (TraceSem)
+    for b in semcommon.random_tier(work, rep, hbin, False, 0):
+        bad.append({"part": "validation-position (long arrays)", "what": "position", "content": list(b["doc"].encode()), "pos": b["want"], "want": b["want"], "got": json.dumps(b["got"])})
     rep.cov["traces_validated_against_impl"] = n + tests
     rep.cov["exhaustive"] = True
     rep.cov["rule"] = ("rendering: all contents over {a, space, tab, LF, CR} up to %s bytes x all positions + long lines around the 200-byte cut (%d cases), expected "
